@@ -106,6 +106,7 @@ def generate(g, h):
     ru = h.func(tp, 'recv_udp')
     for name in ['IP_ORIGDSTADDR', 'SOL_IPV6', 'IPV6_ORIGDSTADDR']:
         g.nat('TPROXY_' + name, lambda name=name: h.int_of(h.const_assign(tp, name)))
+    g.strlist('TPROXY_RECVMSG_ARGS', lambda: [_src(a) for a in _one(_sorted_calls(h, ru, 'recvmsg'), 'recvmsg').args])
     g.strlist('TPROXY_CMSG_FMTS', lambda: [ast.literal_eval(c.args[0]) for c in _sorted_calls(h, ru, 'unpack')])
     g.strlist('TPROXY_CMSG_HDR_SLICES', lambda: [_src(c.args[1]) for c in _sorted_calls(h, ru, 'unpack')])
     g.strlist('TPROXY_PORT_CONV', lambda: [_src(c) for c in _sorted_calls(h, ru, 'htons')])
@@ -135,6 +136,7 @@ def generate(g, h):
     g.raw('')
     g.raw('-- sshuttle/methods/ipfw.py recv_udp')
     iru = h.func(ipfw, 'recv_udp')
+    g.strlist('IPFW_RECVMSG_ARGS', lambda: [_src(a) for a in _one(_sorted_calls(h, iru, 'recvmsg'), 'recvmsg').args])
     g.nat('IPFW_IP_RECVDSTADDR', lambda: h.int_of(h.const_assign(ipfw, 'IP_RECVDSTADDR')))
     g.nat('IPFW_PORT', lambda: _assign_int(iru, 'port'))
     g.strlist('IPFW_NTOP_CALLS', lambda: [_src(c) for c in _sorted_calls(h, iru, 'inet_ntop')])
